@@ -900,11 +900,13 @@ class Parser:
                     else:
                         return int(s, 10)
                 except ValueError:
-                    if len(s) > 1:
+                    try:
                         if s.lower()[0:2] == '0x':
                             return int(s, 16)
                         elif s.lower()[0:2] == '0b':
                             return int(s, 2)
+                    except ValueError:
+                        pass     # e.g. a hexadecimal floating constant
                 raise CDefError("invalid constant %r" % (s,))
             elif s[0] == "'" and s[-1] == "'" and len(s) == 3:
                 return ord(s[-2])
